@@ -215,8 +215,6 @@ SUBSCRIPT_FACTS = {
     ("Importance", "_unshare_tree", "$n2['classifier']"): "every importance tree has a 'classifier' node",
     ("Importance", "_unshare_tree", "$n0['classifier']"):              # $n0: tree
         "every importance tree has a 'classifier' node",
-    ("MCNP_Object", "leading_comments.setter", "self._tree['start_pad']"):
-        "the same subscript was evaluated by the `if` test just above, before any mutation",
 }
 # class of a receiver expression, per (class of self, source)
 RECEIVER_HINTS = {
@@ -542,6 +540,7 @@ class FnCtx:
         self.guards = []             # sources of expressions known to be truthy (enclosing `if E:` / `if E and ..:`)
         self.validated = set()       # names whose value a collection constructor accepted (`Cells(list(x))` statement)
         self.len_eq = set()          # {src A, src B}: a check `if len(A) != len(B): raise` has been passed
+        self.seen_subs = set()       # constant-key subscripts X['k'] evaluated or assigned on every path to here
         self.index_of = {}           # index variable of an enclosing `for i, x in enumerate(A)` -> src A
         self.last_effect = None      # source of the callee of the last effect emitted
 
@@ -646,6 +645,14 @@ class Translator:
                 key = (ctx.cls, ctx.fname, src)
             if DEBUG_KEYS:
                 print("KEY subscript", ctx.cls, ctx.qual, "|", ast.unparse(e), "|", src)
+            raw = ast.unparse(e)
+            const_key = isinstance(e.slice, ast.Constant) and isinstance(e.slice.value, str)
+            if const_key and raw in ctx.seen_subs:
+                self.notes.append((f"{ctx.cls}.{ctx.fname}", f"subscript {raw} cannot raise: evaluated or assigned before, "
+                                                             f"nothing removed since"))
+                return out
+            if const_key:
+                ctx.seen_subs.add(raw)
             if const_end and vsrc in ctx.guards:
                 self.notes.append((f"{ctx.cls}.{ctx.fname}", f"subscript {src} cannot raise: inside `if {vsrc}` (non-empty)"))
             elif idx is not None and (vsrc == ctx.index_of[idx] or frozenset((vsrc, ctx.index_of[idx])) in ctx.len_eq):
@@ -727,6 +734,8 @@ class Translator:
                                                              "str(<argument>); it builds a fresh node and touches no existing object"))
                 out.append(self.mk(ctx, "convert", stmt_node, t="str", guarded=True, none_guard=True))
                 return out
+            if m in ("pop", "popitem", "clear", "remove", "discard"):
+                ctx.seen_subs.clear()
             nrecv = self.nsrc(ctx, f.value)
             if DEBUG_KEYS:
                 print("KEY call", ctx.cls, ctx.qual, "|", m, "|", recv, "|", nrecv)
@@ -857,6 +866,7 @@ class Translator:
                 # the primary argument is rebound to something we do not track: forget what is known
                 out.append(self.mk(ctx, "forget", st))
             ctx.locals.add(target.id)
+            ctx.seen_subs = {x for x in ctx.seen_subs if not (x.startswith(target.id + "[") or x.startswith(target.id + "."))}
             ctx.fresh_deep.discard(target.id)
             ctx.fresh_shallow.discard(target.id)
             kind = self.freshness(ctx, value)
@@ -882,6 +892,11 @@ class Translator:
                 inl = self.inline_setter(ctx, st, tcls, target.attr, self.argsrc(ctx, value), recv)
                 if inl is not None:
                     return out + [inl]
+        # rebinding X forgets what is known about X[...]
+        tsrc = ast.unparse(target)
+        ctx.seen_subs = {x for x in ctx.seen_subs if not (x.startswith(tsrc + "[") or x.startswith(tsrc + "."))}
+        if isinstance(target, ast.Subscript) and isinstance(target.slice, ast.Constant) and isinstance(target.slice.value, str):
+            ctx.seen_subs.add(tsrc)
         if self.fresh_target(ctx, target):
             self.notes.append((f"{ctx.cls}.{ctx.fname}", f"assignment to {ast.unparse(target)}: inside an object created by this call"))
             return out
@@ -1052,16 +1067,17 @@ class Translator:
             conj = st.test.values if isinstance(st.test, ast.BoolOp) and isinstance(st.test.op, ast.And) else [st.test]
             ng = [ast.unparse(c) for c in conj if isinstance(c, (ast.Attribute, ast.Name, ast.Subscript))]
             ctx.guards += ng
-            f0 = (set(ctx.fresh_deep), set(ctx.fresh_shallow), set(ctx.validated))
+            f0 = (set(ctx.fresh_deep), set(ctx.fresh_shallow), set(ctx.validated), set(ctx.seen_subs))
             b1 = self.block(ctx, st.body)
             del ctx.guards[len(ctx.guards) - len(ng):]
-            f1 = (set(ctx.fresh_deep), set(ctx.fresh_shallow), set(ctx.validated))
-            ctx.fresh_deep, ctx.fresh_shallow, ctx.validated = set(f0[0]), set(f0[1]), set(f0[2])
+            f1 = (set(ctx.fresh_deep), set(ctx.fresh_shallow), set(ctx.validated), set(ctx.seen_subs))
+            ctx.fresh_deep, ctx.fresh_shallow, ctx.validated, ctx.seen_subs = set(f0[0]), set(f0[1]), set(f0[2]), set(f0[3])
             b2 = self.block(ctx, st.orelse)
             # what holds after the statement holds on both paths
             ctx.fresh_deep &= f1[0]
             ctx.fresh_shallow &= f1[1]
             ctx.validated &= f1[2]
+            ctx.seen_subs &= f1[3]
             br = self.mk(ctx, "branch", st, cond=ast.unparse(st.test), b1=b1, b2=b2)
             br["end_line"] = st.test.end_lineno
             br["b1_line"] = st.body[0].lineno
@@ -1098,7 +1114,7 @@ class Translator:
                             ctx.fresh_deep.discard(t.id)
                             ctx.fresh_shallow.discard(t.id)
                             ctx.validated.discard(t.id)
-            f0 = (set(ctx.fresh_deep), set(ctx.fresh_shallow), set(ctx.validated))
+            f0 = (set(ctx.fresh_deep), set(ctx.fresh_shallow), set(ctx.validated), set(ctx.seen_subs))
             idx_name = None
             if (isinstance(st.iter, ast.Call) and _is_name(st.iter.func, "enumerate") and len(st.iter.args) == 1
                     and isinstance(st.target, ast.Tuple) and len(st.target.elts) == 2 and isinstance(st.target.elts[0], ast.Name)):
@@ -1110,6 +1126,7 @@ class Translator:
             ctx.fresh_deep &= f0[0]
             ctx.fresh_shallow &= f0[1]
             ctx.validated &= f0[2]
+            ctx.seen_subs &= f0[3]
             lp = self.mk(ctx, "loop", st, body=body, it=ast.unparse(st.iter))
             lp["end_line"] = st.iter.end_lineno
             lp["body_line"] = st.body[0].lineno
@@ -1124,6 +1141,7 @@ class Translator:
         if isinstance(st, ast.AugAssign):
             return self.assign(ctx, st, st.target, st.value)
         if isinstance(st, ast.Delete):
+            ctx.seen_subs.clear()
             out = []
             for t in st.targets:
                 if isinstance(t, ast.Attribute):
